@@ -218,6 +218,33 @@ def r2(run: Run, rt):
         if not eager:
             run.check(bool(hit), 'C04.R2', f'_cell_preprocessor[{cp.label}]/override-hit', 'override-not-returned',
                       'no path returns the stored override value', fact='returns self._arguments[uid]', loc=cp.loc(fn))
+        # every value that is not the stored override is returned only on an override miss: a return that is reached without
+        # the override map having been consulted ignores overrides for the cells that take that path
+        def under_miss(node):
+            cs = path_conditions(fn, node, parents)
+            if any((f'{uid} in self._arguments' in ast.unparse(t) and pol is False) or
+                   (f'{uid} not in self._arguments' in ast.unparse(t) and pol is True) for t, pol in cs):
+                return True
+            q = parents.get(node)
+            while q is not None:
+                if isinstance(q, ast.ExceptHandler) and q.type is not None and 'KeyError' in ast.unparse(q.type):
+                    return True
+                q = parents.get(q)
+            for st in executed_before(fn, node, parents):
+                if isinstance(st, ast.Try) and not may_complete_normally(st.body) and not st.orelse and \
+                        f'self._arguments[{uid}]' in ast.unparse(ast.Module(body=st.body, type_ignores=[])) and st.handlers and \
+                        all(h.type is not None and 'KeyError' in ast.unparse(h.type) for h in st.handlers):
+                    return True
+            return False
+        if not eager:
+            for r in rets:
+                if r in hit or r.value is None:
+                    continue
+                run.check(under_miss(r), 'C04.R3', f'_cell_preprocessor[{cp.label}]/return `{ast.unparse(r.value)[:40]}`',
+                          'override-not-consulted',
+                          f'`return {ast.unparse(r.value)[:60]}` is reached without the override map having been consulted: an override '
+                          f'for a cell that takes this path (e.g. an address without a translated member) is ignored',
+                          fact='returned only when the uid has no override', loc=cp.loc(r))
         # no member -> blank
         txt = ast.unparse(fn)
         run.check('self.EmptyCell()' in txt, 'C04.R3', f'_cell_preprocessor[{cp.label}]/blank-fallback', 'no-blank-fallback',
